@@ -518,3 +518,72 @@ def check_dtype_gate(run, tree, want_numeric=True, want_bool=True):
             run.ob(construct, keeps == {False}, f.fi.where(),
                    "boolean result: unit kept on %s" % ("no path" if keeps == {False} else "a path"),
                    "a < b or np.isfinite(a) carries the operand unit instead of being dimensionless")
+
+
+# =============================================================================== constructor / index gates (D7 on paths)
+def check_array_constructor(run, tree):
+    """Array.__init__ over value kinds: Base -> NotImplementedError; Quantity (+unit -> ValueError) -> magnitude/units;
+    anything else -> values with units(unit); non-ndarray values wrapped with np.asarray."""
+    ci = tree.cls(ARRAY)
+    fi = tree.method(ci, "__init__")
+    run.analysed(fi)
+    pn = params(fi)
+    SELF, VALUES, UNIT = pn[0], pn[1], pn[2]
+    seen = {}
+    for path in enumerate_paths(fi.node.body, exc_paths=False):
+        kind = "other"
+        unit_given = None
+        wrapped = None
+        for it in path:
+            if it[0] == "test":
+                t = it[1]
+                neg = False
+                while isinstance(t, ast.UnaryOp) and isinstance(t.op, ast.Not):
+                    neg, t = not neg, t.operand
+                if isinstance(t, ast.Call) and is_name(t.func, "isinstance") and is_name(t.args[0], VALUES):
+                    r = tree.resolve_expr(fi.module, t.args[1])
+                    nm = getattr(r, "name", None) or (r[1].split(".")[-1] if isinstance(r, tuple) else norm(t.args[1]))
+                    if (it[2] and not neg) or (not it[2] and neg):
+                        kind = nm
+                if isinstance(t, ast.Compare) and is_name(t.left, UNIT) and isinstance(t.comparators[0], ast.Constant) and \
+                        t.comparators[0].value is None:
+                    isnot = isinstance(t.ops[0], ast.IsNot)
+                    unit_given = (it[2] == isnot) if not neg else (it[2] != isnot)
+        stmts = [norm(it[1]) for it in path if it[0] == "stmt"]
+        seen.setdefault((kind, unit_given, path[-1][1]), []).extend(stmts)
+    base_raises = any(k[0] == "Base" and k[2] == "raise" for k in seen)
+    q_unit_raises = any(k[0] == "Quantity" and k[1] is True and k[2] == "raise" for k in seen)
+    q_ok = any(k[0] == "Quantity" and k[2] != "raise" and "%s._array = %s.magnitude" % (SELF, VALUES) in v and
+               "%s._unit = %s.units" % (SELF, VALUES) in v for k, v in seen.items())
+    other_ok = any(k[0] == "other" and k[2] != "raise" and "%s._array = %s" % (SELF, VALUES) in v and
+                   "%s._unit = units(%s)" % (SELF, UNIT) in v for k, v in seen.items())
+    run.ob(ARRAY + ".__init__::rejects-Array-or-Vector", base_raises, fi.where(), "an Array/Vector as values raises: %s" % base_raises,
+           "Array(Array(...)) nests the wrapper: every later operation dispatches wrongly")
+    run.ob(ARRAY + ".__init__::quantity-with-unit-raises", q_unit_raises, fi.where(), "Quantity + explicit unit raises: %s" % q_unit_raises,
+           "Array(3*m, unit='s') silently relabels", nontrivial=False)
+    run.ob(ARRAY + ".__init__::quantity", q_ok, fi.where(), "a Quantity gives magnitude and units: %s" % q_ok,
+           "a + (3*cm): the number 3 is taken as metres")
+    run.ob(ARRAY + ".__init__::plain-values", other_ok, fi.where(), "other values are stored with units(unit): %s" % other_ok,
+           "a + 1.0 or Array([..], 'm') mislabelled")
+    asarr = any("np.asarray(%s._array)" % SELF in " ".join(v) for v in seen.values())
+    run.ob(ARRAY + ".__init__::ndarray-coercion", asarr, fi.where(), "non-ndarray values wrapped with np.asarray: %s" % asarr,
+           "lists/scalars stay Python objects: .shape/.dtype fail", nontrivial=False)
+
+
+def check_array_index_gate(run, tree):
+    """Array.__getitem__ with an osyris index: Vector rejected, dtype must be integer or bool, raw values used."""
+    ci = tree.cls(ARRAY)
+    fi = tree.method(ci, "__getitem__")
+    pn = params(fi)
+    SELF, SL = pn
+    raises = [p for p in enumerate_paths(fi.node.body, exc_paths=False) if p[-1][1] == "raise"]
+    vec_rej = any(any(it[0] == "test" and "isinstance(%s, %s.__class__)" % (SL, SELF) in norm(it[1]) for it in p) for p in raises)
+    dtype_rej = any(any(it[0] == "test" and "%s.dtype not in" % SL in norm(it[1]) and it[2] for it in p) for p in raises)
+    types = None
+    for n in walk_no_nested(fi.node):
+        if isinstance(n, ast.Compare) and norm(n.left) == "%s.dtype" % SL and isinstance(n.ops[0], ast.NotIn):
+            types = [const_value(e, norm(e)) for e in n.comparators[0].elts] if isinstance(n.comparators[0], (ast.Tuple, ast.List)) else None
+    ok_types = types is not None and {"int32", "int64"} <= set(types) and ("bool" in types)
+    run.ob(ARRAY + ".__getitem__::vector-index-rejected", vec_rej, fi.where(), "a Vector index raises: %s" % vec_rej, "a[v] silently uses one component", nontrivial=False)
+    run.ob(ARRAY + ".__getitem__::index-dtype-gate", dtype_rej and ok_types, fi.where(), "index Arrays must be integer or bool: accepted dtypes %s" % types,
+           "a float Array used as index (e.g. a mask multiplied by 1.0) is accepted / a boolean mask is rejected")
